@@ -278,6 +278,19 @@ def reachable_nodes(node, flags, in_loop=False):
             if node.get("else") is not None:
                 yield from reachable_nodes(node["else"], flags, in_loop)
             return
+    if k == "match" and node.get("arms"):
+        # `match flag {..}` / `match (flag_a, flag_b) {..}` on known flags takes exactly one arm
+        sc = peel(node.get("scrut"))
+        comps = (sc.get("es") or []) if isinstance(sc, dict) and sc.get("k") == "tuple" else [sc]
+        vals = [eval_flag_cond(c, flags) for c in comps]
+        if comps and all(v is not None for v in vals):
+            cv = [("const", "true" if v else "false") for v in vals]
+            val = T(*cv) if isinstance(sc, dict) and sc.get("k") == "tuple" else cv[0]
+            arms = select_arms(node, val)
+            if arms and arms[0][1] == YES and node["arms"][arms[0][0]].get("guard") is None:
+                yield node, in_loop
+                yield from reachable_nodes(node["arms"][arms[0][0]]["body"], flags, in_loop)
+                return
     if "k" in node:
         yield node, in_loop
     loop = in_loop or k == "loop"
@@ -765,3 +778,65 @@ def adaptor_inventory(ck, R, facts, crate, key_pred, audit, what, floor=0, short
                          "entry with its reason" % (len(sites), ad, audit.get((sk, ad), (0, ""))[0], what))
     ck.floor(R, "audited-adaptor-sites", total, floor)
     return seen
+
+
+
+def let_bound(thir, init_pred):
+    """names of variables bound by `let x = <init>` (or `let (x, ..) = ..`) whose initializer satisfies init_pred(node)"""
+    from core import pat_bindings
+    out = set()
+    for st in walk(thir):
+        if st.get("k") == "let" and st.get("init") is not None and init_pred(st["init"]):
+            for n, _path in pat_bindings(st.get("pat")):
+                out.add(n)
+    return out
+
+
+def params_of_type(body, substr):
+    """names of the parameters of a body whose type mentions `substr`"""
+    return {p.get("n") for p in (body.d.get("thir_params") or []) if isinstance(p, dict) and substr in str(p.get("ty", "")) and p.get("n")}
+
+
+
+def let_inits(thir):
+    """{name: initializer} for every simple `let name = init;` under thir (names bound once)"""
+    seen, dup = {}, set()
+    for st in walk(thir):
+        if st.get("k") == "let" and st.get("init") is not None and (st.get("pat") or {}).get("k") == "bind" and not st["pat"].get("sub"):
+            n = st["pat"].get("n")
+            if n in seen:
+                dup.add(n)
+            seen[n] = st["init"]
+    return {k: v for k, v in seen.items() if k not in dup}
+
+
+def resolve_var(node, inits, depth=4):
+    """follow `let x = e` bindings: the expression a variable stands for"""
+    n = peel(node)
+    for _ in range(depth):
+        if isinstance(n, dict) and n.get("k") == "var" and n.get("n") in inits:
+            n = peel(inits[n["n"]])
+        else:
+            break
+    return n
+
+
+def calls_grouped_edges(cfg, fn, want):
+    """{call block: [edges]} - for every call to fn whose boolean result is switched on, the edges taken when it is `want`"""
+    out = {}
+    for i, t in cfg.switches():
+        if t.get("ty") != "bool":
+            continue
+        tr = cfg.trace(t["o"])
+        if tr.get("kind") != "call" or not callee_matches(tr["call"], fn):
+            continue
+        val = want != tr.get("neg", False)
+        for e in cfg.succ[i]:
+            lab = e[2]
+            if lab[0] == "sw":
+                is_true = lab[1] != 0
+            else:
+                is_true = all(v == 0 for v, _ in t["v"])
+            if is_true == val:
+                out.setdefault(tr["block"], []).append(e)
+    return out
